@@ -100,6 +100,9 @@ func genSwMaybeBad(r *Rng) SwDesc {
 	d := genSw(r)
 	switch r.Intn(9) {
 	case 8:
+		if r.Chance(1, 2) {
+			return SwDesc{Nil: true, Version: sp("untyped")} // a nil interface value rather than a typed nil pointer
+		}
 		return SwDesc{Nil: true}
 	case 0:
 		d.MVal = nil
@@ -247,6 +250,37 @@ func (histWorld) Gen(prop, tier string, idx int, r *Rng) *Trace {
 	for i := 1; i < len(ops); i++ {
 		if r.Chance(1, 8) {
 			ops[i] = ops[r.Intn(i)]
+		}
+	}
+	if hc.Start != nil {
+		// hand a setter the very value the (decoded, possibly invalid) claims-set already holds
+		d := hc.Start
+		var re []Op
+		if d.ImplID != nil && r.Chance(1, 3) {
+			re = append(re, Op{K: "impl", X: append(HexBytes{}, (*d.ImplID)...)})
+		}
+		if d.BootSeed != nil && r.Chance(1, 3) {
+			re = append(re, Op{K: "seed", X: append(HexBytes{}, (*d.BootSeed)...)})
+		}
+		if d.Nonce != nil && r.Chance(1, 3) {
+			re = append(re, Op{K: "nonce", X: append(HexBytes{}, (*d.Nonce)...)})
+		}
+		if d.InstID != nil && r.Chance(1, 3) {
+			re = append(re, Op{K: "inst", X: append(HexBytes{}, (*d.InstID)...)})
+		}
+		if d.CertRef != nil && r.Chance(1, 3) {
+			re = append(re, Op{K: "cert", S: *d.CertRef})
+		}
+		if d.VSI != nil && r.Chance(1, 3) {
+			re = append(re, Op{K: "vsi", S: *d.VSI})
+		}
+		if d.Lifecycle != nil && r.Chance(1, 3) {
+			re = append(re, Op{K: "lc", A: int(*d.Lifecycle)})
+		}
+		if len(re) > 0 {
+			// early, before other calls overwrite the start state
+			at := r.Intn(minInt(len(ops), 3) + 1)
+			ops = append(ops[:at], append(re, ops[at:]...)...)
 		}
 	}
 	if obj != "cont" {
@@ -1135,4 +1169,11 @@ func checkEncodingReflectsGetters(res *Result, i int, c psatoken.IClaims, obj st
 			}
 		}
 	}
+}
+
+func minInt(a, b int) int {
+	if a < b {
+		return a
+	}
+	return b
 }
